@@ -458,7 +458,8 @@ CONT_CONS = [
 CONT_INIT = {
     "b.init": [(("explicit", b, True), 1), (("fdefault", True), 1), (("none",), 1)],
     "q.init": [(("explicit", q(s1), True), 0), (("fdefault", True), 1), (("none",), 0)],
-    "p.init": [(("explicit", p(s1), True), 0), (("fdefault", True), 1), (("none",), 0)],
+    # core: an explicit value on one instance while ANOTHER instance of the same fluent is hidden
+    "p.init": [(("explicit", p(s1), True), 1), (("fdefault", True), 1), (("none",), 0)],
 }
 CONT_TDEF = [(True, 1), (False, 1)]  # ContingentProblem(initial_defaults={Bool: v})
 
